@@ -48,6 +48,8 @@ inductive Step where
   | checkTypes
   | checkFlat
   | checkFlatNonEmpty
+  | checkOrder
+  | removeLink
   | convertIf (gs : List Guard)
   | takeShape
   | resizeOrCreate
@@ -82,6 +84,7 @@ structure Dataset where
 structure File where
   ds : Option Dataset
   stamp : Nat
+  link : Bool := false        -- a RangeDimension's link to a data object (replaces its ticks)
   deriving DecidableEq, Repr, Inhabited
 
 /-- the machine: the Python variable holding the value, whether NumPy has converted it, the shape taken by
@@ -115,6 +118,11 @@ def Arg.rank : Arg → Nat
   | .unsized _ => 0
   | .nested _ r _ => r
 
+/-- `np.any(np.diff(v) < 0)` on a one-dimensional vector -/
+def descends : List Rat → Bool
+  | a :: b :: r => decide (b < a) || descends (b :: r)
+  | _ => false
+
 def guardHolds (m : M) : Guard → Bool
   | .dtypeGiven => m.dt.isSome
   | .dtypeFloat => m.dt == some .double
@@ -146,6 +154,12 @@ def step (m : M) : Step → M × Option Nix.Err
     | .unsized _ => (m, some .typeError)         -- `len()` of a 0-d array
     | .seq _ _ => (m, none)
     | .nested _ _ es => if es.isEmpty then (m, none) else (m, some .valueError)
+  | .checkOrder =>               -- `if np.any(np.diff(x) < 0): raise ValueError`; `np.diff` of a 0-d array raises too
+    -- (for an n-d value NumPy takes the differences along the last axis; the flattened test used here agrees with it
+    --  on the values the correspondence offers, and the step never touches the file)
+    if m.x.rank == 0 then (m, some .valueError)
+    else if descends (m.x.elems.map (·.val)) then (m, some .valueError) else (m, none)
+  | .removeLink => ({ m with file := { m.file with link := false } }, none)   -- `if self.has_link: self.remove_link()`
   | .convertIf gs =>
     if gs.all (guardHolds m) then
       if m.x.elems.all (·.convOk) then ({ m with converted := true }, none) else (m, some .valueError)
